@@ -1,0 +1,160 @@
+//go:build verif
+
+package mimetype
+
+import (
+	"sync"
+	"sync/atomic"
+
+	"github.com/gabriel-vasile/mimetype/internal/charset"
+	ijson "github.com/gabriel-vasile/mimetype/internal/json"
+	"github.com/gabriel-vasile/mimetype/internal/magic"
+)
+
+// This file is only compiled with the "verif" build tag. It exposes the
+// linearization points of the package to an out-of-module verification harness
+// and re-exports a few internal entry points. Nothing here changes behaviour
+// when VerifHook is nil.
+
+// VerifEvent is emitted at each hook point.
+type VerifEvent struct {
+	Point   string // e.g. "detect.loaded", "consult.post", "ext.published"
+	Node    *MIME  // node whose children are walked / receiver
+	Child   *MIME  // consulted child / new extension
+	Len     int    // len(header) where known
+	Limit   uint32
+	OK      bool   // detector verdict for consult.post
+	Charset string // for "leaf"
+}
+
+// VerifHook, when non-nil, is called synchronously at every hook point. It may
+// block (used as a scheduler gate).
+var VerifHook func(VerifEvent)
+
+func verifAt(point string, m, c *MIME, n int, limit uint32, ok bool) {
+	if h := VerifHook; h != nil {
+		h(VerifEvent{Point: point, Node: m, Child: c, Len: n, Limit: limit, OK: ok})
+	}
+}
+
+func verifLeaf(m *MIME, ps map[string]string) {
+	if h := VerifHook; h != nil {
+		h(VerifEvent{Point: "leaf", Node: m, Charset: ps["charset"]})
+	}
+}
+
+// verifWrapNode wraps the detector of c so that every consultation is visible.
+func verifWrapNode(c *MIME) {
+	d := c.detector
+	if d == nil {
+		return
+	}
+	verifMu.Lock()
+	verifOrig[c] = d
+	verifMu.Unlock()
+	c.detector = func(raw []byte, limit uint32) bool {
+		verifAt("consult.pre", c.parent, c, len(raw), limit, false)
+		ok := d(raw, limit)
+		verifAt("consult.post", c.parent, c, len(raw), limit, ok)
+		return ok
+	}
+}
+
+var (
+	verifMu           sync.Mutex
+	verifOrig         = map[*MIME]magic.Detector{}
+	verifInitChildren = map[*MIME][]*MIME{}
+)
+
+func init() {
+	for _, n := range root.flatten() {
+		if n != root {
+			verifWrapNode(n)
+		}
+		verifInitChildren[n] = append([]*MIME(nil), n.children...)
+	}
+}
+
+// VerifNode describes one node of the detector tree.
+type VerifNode struct {
+	M        *MIME
+	Mime     string
+	Ext      string
+	Aliases  []string
+	Parent   *MIME
+	Children []*MIME
+}
+
+// VerifTree returns the current tree in depth-first pre-order (root first).
+func VerifTree() []VerifNode {
+	mu.RLock()
+	defer mu.RUnlock()
+	var out []VerifNode
+	for _, n := range root.flatten() {
+		out = append(out, VerifNode{M: n, Mime: n.mime, Ext: n.extension,
+			Aliases: append([]string(nil), n.aliases...), Parent: n.parent,
+			Children: append([]*MIME(nil), n.children...)})
+	}
+	return out
+}
+
+// VerifRoot returns the root of the tree (not a clone).
+func VerifRoot() *MIME { return root }
+
+// VerifErrMIME returns the shared error value.
+func VerifErrMIME() *MIME { return errMIME }
+
+// VerifDetector returns the unwrapped detector of a tree node.
+func VerifDetector(m *MIME) func([]byte, uint32) bool {
+	verifMu.Lock()
+	defer verifMu.Unlock()
+	if d, ok := verifOrig[m]; ok {
+		return d
+	}
+	return m.detector
+}
+
+// VerifResetTree restores the children slices captured at package init,
+// dropping every extension, and restores the default limit.
+func VerifResetTree() {
+	mu.Lock()
+	for n, ch := range verifInitChildren {
+		n.children = append([]*MIME(nil), ch...)
+	}
+	mu.Unlock()
+	SetLimit(defaultLimit)
+}
+
+// VerifAliases returns the alias slice of m itself (not a copy).
+func VerifAliases(m *MIME) []string { return m.aliases }
+
+// VerifLimit returns the current read limit.
+func VerifLimit() uint32 { return atomic.LoadUint32(&readLimit) }
+
+// Re-exports of internal entry points.
+
+// VerifJSONParse is json.Parse.
+func VerifJSONParse(q string, raw []byte) (parsed, inspected, firstToken int, querySatisfied bool) {
+	return ijson.Parse(q, raw)
+}
+
+// VerifSetJSONHook installs the hook of the internal JSON scanner.
+func VerifSetJSONHook(h func(ijson.VerifEvent)) { ijson.VerifHook = h }
+
+// VerifJSONEvent is the event type of the internal JSON scanner.
+type VerifJSONEvent = ijson.VerifEvent
+
+// VerifSetCSVHook installs the hook of the pooled CSV reader.
+func VerifSetCSVHook(h func(buffered int)) { magic.VerifReaderHook = h }
+
+// VerifCharsetFromPlain is charset.FromPlain.
+func VerifCharsetFromPlain(b []byte) string { return charset.FromPlain(b) }
+
+// VerifCharsetFromHTML is charset.FromHTML.
+func VerifCharsetFromHTML(b []byte) string { return charset.FromHTML(b) }
+
+// VerifCharsetFromXML is charset.FromXML.
+func VerifCharsetFromXML(b []byte) string { return charset.FromXML(b) }
+
+// VerifCharsetFromBOM is charset.FromBOM.
+func VerifCharsetFromBOM(b []byte) string { return charset.FromBOM(b) }
